@@ -245,24 +245,36 @@ def bcss_arguments(program: Program, k: ClassInfo):
     if f is None:
         raise AnalysisError(f"{k.name}.__init__ not found")
     env = {}
+    seqs = {}  # locals bound to a tuple / list literal (e.g. a named coefficient tuple)
     call = None
     for st in f.body_without_docstring():
         if isinstance(st, ast.Assign) and len(st.targets) == 1 and isinstance(st.targets[0], ast.Name):
-            env[st.targets[0].id] = eval_expr(st.value, env)
+            if isinstance(st.value, (ast.Tuple, ast.List)):
+                seqs[st.targets[0].id] = st.value
+            else:
+                env[st.targets[0].id] = eval_expr(st.value, env)
         elif isinstance(st, ast.Expr) and isinstance(st.value, ast.Call) and call_name(st.value) == "super().__init__":
             call = st.value
-    if call is None or len(call.args) < 2:
+    if call is None:
         raise AnalysisError(f"{k.name}.__init__: super().__init__ call not found")
-    fc = call.args[1]
+    base_init = next((c.methods["__init__"] for c in k.mro[1:] if "__init__" in c.methods), None)
+    names = base_init.params[1:] if base_init is not None else []
+    bound = dict(zip(names, call.args))
+    for kw in call.keywords:
+        if kw.arg:
+            bound[kw.arg] = kw.value
+    fc = bound.get("free_coefficients", call.args[1] if len(call.args) > 1 else None)
+    if isinstance(fc, ast.Name) and fc.id in seqs:
+        fc = seqs[fc.id]
     if not isinstance(fc, (ast.Tuple, ast.List)):
         raise AnalysisError(f"{k.name}.__init__: free coefficients are not a literal tuple")
     free = [eval_expr(e, env) for e in fc.elts]
     init_h1 = True
-    for kw in call.keywords:
-        if kw.arg == "initial_h1_flow_step":
-            if not isinstance(kw.value, ast.Constant):
-                raise AnalysisError("non-literal initial_h1_flow_step")
-            init_h1 = bool(kw.value.value)
+    if "initial_h1_flow_step" in bound:
+        v = bound["initial_h1_flow_step"]
+        if not isinstance(v, ast.Constant):
+            raise AnalysisError("non-literal initial_h1_flow_step")
+        init_h1 = bool(v.value)
     return free, init_h1
 
 
@@ -358,6 +370,8 @@ class StepExecutor:
             return [Event("flow", o.id, cn.split(".")[-1], coeff=self.time_expr(c.args[1], env), node=st, func=f.qualname)]
         if cn.startswith("self.system.") and len(c.args) == 1 and self.obj_of(c.args[0], env) is not None:
             return [Event("preeval", self.obj_of(c.args[0], env).id, cn.split(".")[-1], node=st, func=f.qualname)]
+        if cn != "self.projection_solver" and isinstance(c.func, ast.Name) and isinstance(env.get(c.func.id), tuple) and env[c.func.id] == ("alias", "self.projection_solver"):
+            cn = "self.projection_solver"
         if cn == "self.projection_solver":
             o = self.obj_of(c.args[0], env)
             oprev = self.obj_of(c.args[1], env)
@@ -532,6 +546,10 @@ class StepExecutor:
             if isinstance(inner, ast.Attribute) and self.obj_of(inner.value, env) is not None:
                 env[t.id] = Saved(self.obj_of(inner.value, env).id, inner.attr, True)
                 return []
+        # local alias of a configured callable (solver = self.projection_solver)
+        if isinstance(t, ast.Name) and is_self_attr(v) and v.attr in ("projection_solver", "fixed_point_solver"):
+            env[t.id] = ("alias", norm(v))
+            return []
         # v = w with w a saved value (alias of a saved value)
         if isinstance(t, ast.Name) and isinstance(v, ast.Name) and isinstance(env.get(v.id), Saved):
             env[t.id] = env[v.id]
@@ -543,6 +561,12 @@ class StepExecutor:
         if isinstance(t, ast.Name) and isinstance(v, ast.Call) and call_name(v) in ("np.concatenate", "numpy.concatenate"):
             env[t.id] = Saved("?", "concat", True)
             return []
+        # m = self.system.project_onto_cotangent_space(X.mom, X): projected momentum held in a local
+        if isinstance(t, ast.Name) and isinstance(v, ast.Call) and call_name(v) == "self.system.project_onto_cotangent_space" and len(v.args) == 2 and self.obj_of(v.args[1], env) is not None and isinstance(v.args[0], ast.Attribute) and v.args[0].attr == "mom" and self.obj_of(v.args[0].value, env) is self.obj_of(v.args[1], env):
+            env[t.id] = ("projected", self.obj_of(v.args[1], env).id)
+            return []
+        if isinstance(t, ast.Attribute) and t.attr == "mom" and self.obj_of(t.value, env) is not None and isinstance(v, ast.Name) and isinstance(env.get(v.id), tuple) and env[v.id][0] == "projected" and env[v.id][1] == self.obj_of(t.value, env).id:
+            return [Event("project", self.obj_of(t.value, env).id, node=st, func=f.qualname)]
         # x = self._solve_fixed_point(f, x0): the solution is held in a local before it is assigned
         if isinstance(t, ast.Name) and isinstance(v, ast.Call) and call_name(v) == "self._solve_fixed_point":
             env[t.id] = ("lazy_solve", v)
@@ -626,6 +650,8 @@ class StepExecutor:
                         c = s.value
                         o = self.obj_of(c.args[0], env2)
                         out.append(Event("flow", o.id, fl, coeff=self.time_expr(c.args[1], env2), node=s, func=f.qualname, block=self.block_id(st.body)))
+                    elif isinstance(s, ast.Assign) and len(s.targets) == 1 and isinstance(s.targets[0], ast.Name):
+                        env2[s.targets[0].id] = self.time_expr(s.value, env2)  # e.g. a named sub-step time
                     else:
                         raise AnalysisError(f"{f.qualname}: composition loop body outside grammar")
             return out
